@@ -271,10 +271,68 @@ def reliable_send_completion(base: int, tries: int, form: int, a0: int, a1: int,
     return True
 
 
+
+@harness(pre=["base in (0, 7)", "0 <= form <= 2", "base - 1 <= a0 <= base + 1", "p >= 0", "0 <= times <= 2"], post="_", timeout=300,
+         note="acks riding on a retransmission: ONE reliable send outstanding; the acknowledgement arrives appended to (form 0) an "
+              "unreliable chat packet, (form 1) a reliable chat packet with ANY id p, (form 2) a reliable PacketAck-less carrier that is "
+              "flagged RESENT - and the carrier id has already been seen 0, 1 or 2 times before (so the arrival is suppressed as a "
+              "duplicate): the send completes exactly when the appended id is its id, whether or not the carrier is dispatched; the "
+              "carrier is acknowledged every time and dispatched to each subscriber at most once overall",
+         covers=COVERS)
+def acks_on_retransmission(base: int, form: int, a0: int, p: int, times: int) -> bool:
+    c, rec, counters = fresh()
+    c.packet_id_base = base
+    form, times = small(form, 0, 2), small(times, 0, 2)
+    m0 = Message("ChatFromViewer", Block("ChatData", fill_missing=True))
+    f0 = c.send_reliable(m0)
+    id0 = m0.packet_id
+    rel = form != 0
+    for _ in range(times):              # earlier copies of the carrier, without any appended ack
+        arrive("ChatFromSimulator", p, rel, False)
+    if f0.done():
+        return False
+    before = len(rec.sent)
+    arrive("ChatFromSimulator", p, rel, form == 2, acks=(a0,))
+    new = rec.sent[before:]
+    if rel:
+        if len(new) != 1 or new[0].name != "PacketAck" or new[0].ids != (p,):
+            return False
+    elif new:
+        return False
+    if f0.done() != (a0 == id0):
+        return False
+    if f0.done() and f0.exception() is not None:
+        return False
+    expect = 1 if rel else times + 1
+    return all(cn.n == expect for cn in counters) and len(c.unacked_reliable) == (0 if a0 == id0 else 1)
+
+
 from vlib.harness import shard  # noqa: E402
 for _w in shard(reliable_send_completion, "form", range(4),
                 ["no_ack", "appended_acks", "packetack", "packetack_plus_appended"], globals()):
     shard(_w, "rounds", range(4), ["0rounds", "1round", "2rounds", "3rounds"], globals())
+
+
+# ---------------------------------------------------------------------------------------------------------------------
+# the dispatch point itself: hippolyzer.lib.base.events.Event.notify under MessageHandler
+from harness import eventfix as _ef  # noqa: E402
+
+
+@harness(pre=["0 <= b0 < 9", "0 <= b1 < 9", "0 <= b2 < 9", "1 <= n <= 3"], post="_", timeout=300,
+         note="Event.notify (dispatch exactly once at the client endpoint's session / region MessageHandler): 1..3 subscribers, each with a symbolically chosen behaviour out of "
+              "{normal, returns True (asks to be unsubscribed), one-shot, raises, predicate false, predicate raises, unsubscribes "
+              "itself inside the handler and returns True, unsubscribes itself and returns None, returns a value whose truth test "
+              "raises}, followed by an observer subscribed last; two notifications: every subscriber registered when a notification "
+              "starts whose predicate passes is called exactly once, in subscription order, whatever the others do; notify() "
+              "never raises; exactly the subscribers that neither left nor were one-shot remain for the second notification",
+         covers=("hippolyzer.lib.base.events:Event.notify", "hippolyzer.lib.base.events:Event.unsubscribe",
+                 "hippolyzer.lib.base.events:Event.subscribe"))
+def event_notify_matrix(b0: int, b1: int, b2: int, n: int) -> bool:
+    return _ef.notify_matrix(b0, b1, b2, n)
+
+
+shard(event_notify_matrix, "b0", range(9), _ef.LABELS, globals())
+
 
 EVIDENCE = {
     "bounds": "<=2 ids in the dedupe window initially, <=3 arrivals, 2 reliable sends acknowledged by one arrival in one of three forms "
